@@ -14,6 +14,8 @@ def optStr : Option Nat → String | none => "none" | some n => s!"some {n}"
 def fit (v : Nat) : Option Nat := if v < U64 then some v else none
 /-- for u64-returning (saturating) functions: the true value, or `overflow` when it does not fit -/
 def fitStr (v : Nat) : String := if v < U64 then toString v else "overflow"
+/-- for `memory_gas` (u64 result, failure = saturation to `u64::MAX`): the true value clamped -/
+def satStr (v : Nat) : String := toString (min v (U64 - 1))
 
 def u64? (s : String) : Option Nat := match parseHex? s with
   | some v => if v < U64 then some v else none
@@ -106,10 +108,10 @@ def handle (toks : List String) : String :=
       | some c, some d => both (toString (warmColdCostWithDelegation c d)) (toString (Spec.GasCalc.callCost .berlin false c d false))
       | _, _ => "bad-op")
   | ["memory_gas", w] => (match u64? w with
-      | some w => both (toString (memoryGas w)) (fitStr (Spec.GasCalc.memCost w))
+      | some w => both (toString (memoryGas w)) (satStr (Spec.GasCalc.memCost w))
       | none => "bad-op")
   | ["memory_gas_for_len", l] => (match u64? l with
-      | some l => both (toString (memoryGasForLen l)) (fitStr (Spec.GasCalc.memCost (Spec.GasCalc.ceil32 l)))
+      | some l => both (toString (memoryGasForLen l)) (satStr (Spec.GasCalc.memCost (Spec.GasCalc.ceil32 l)))
       | none => "bad-op")
   | ["resize_memory", cur, lim, ns] => (match u64? cur, u64? lim, u64? ns with
       | some cur, some lim, some ns =>
